@@ -286,11 +286,8 @@ func httpLikeGet(family string) []*entry {
 			&entry{name: "cl-smaller", build: func(rg *rig, o *object, rng *rand.Rand) *plan {
 				p := base("size-metadata", "bad-cl", "smaller", "get", "deliver")
 				p.framing, p.size = "cl-minus", int64(1+rng.IntN(3))
-				if int(p.size) >= len(o.stored) {
-					p.size = int64(len(o.stored)) - 1
-					if p.size < 0 {
-						p.size = 0
-					}
+				if int(p.size) > len(o.stored) {
+					p.size = int64(len(o.stored))
 				}
 				return consistentAlteration(p, o, true, false)
 			}},
